@@ -1,9 +1,14 @@
-"""C20 - union-find and priority queue conform to their abstract models (structural clauses)."""
+"""C20 - union-find and priority queue conform to their abstract models (structural clauses).
+
+The obligations on add / union / find / the views / the bounds checks / the queue methods are decided on *symbolic paths*
+(msa/rules/hg_symex.py: helpers of the class executed in line, names and attribute stores resolved per path), see msa/rules/hg_uf.py and
+msa/rules/hg_pq.py.  A rule reports a violation only for a recognised construct that contradicts it; a shape it cannot read is `undecided`."""
 from __future__ import annotations
-import ast
+import ast, traceback
 from .. import au, sym, order
 from ..core import AnalysisError, PKG
 from ..rules import c1120_util as U
+from ..rules import hg_uf, hg_pq
 
 UF = "utils.unionfind"
 PQM = "utils.priority_queue"
@@ -11,36 +16,40 @@ UFC = "UnionFind"
 PQC = "PriorityQueue"
 
 EXPLANATION = (
-    "Static conformance of UnionFind and PriorityQueue to their abstract models: lock-step book-keeping of add / union "
-    "(R-PAIR, path enumeration for the component counter), query methods write nothing except find's path compression "
-    "which never rewrites a root, element collections never flow into numpy constructors (taint, with a built-in positive "
-    "fixture), bounds predicates under every ordering (R-ORDER), the queue's list is touched only through heapq inside the "
-    "class (who-may-write, swept over every PriorityQueue / UnionFind instance created in the package), items are ordered by "
-    "priority only, emptiness is len == 0. Structural necessary conditions only; conformance for all histories is not decided.")
+    "Static conformance of UnionFind and PriorityQueue to their abstract models, decided on symbolic paths of their methods (helpers executed in line): "
+    "every registration of an element appends one slot to each table at the index the element really gets, under a non-membership test that is still "
+    "valid when the element is registered, and advances the three counters by one; union makes both arguments members, links two distinct find() roots, "
+    "updates the size of the new root and decrements n_comps exactly on the linking paths; find writes only entries read from _par into non-roots, "
+    "climbs, and returns a fixed point of _par; query methods write no table and a cache they keep is reset by every change of the partition; element "
+    "collections never flow into numpy constructors (taint, with a built-in positive fixture); the views enumerate every element and classify it by "
+    "find; bounds predicates under every ordering (R-ORDER); the queue binds a fresh private list, touches it only through heapq inside the class "
+    "(who-may-write, swept over every PriorityQueue / UnionFind instance created in the package), push queues its item on every normally returning path, "
+    "items are ordered by priority only, emptiness is len == 0. Structural necessary conditions only; conformance for all histories is not decided.")
 
 RULES = {
-    "C20-U1": "add appends to _elts/_par/_siz, stores _indx and increments n_elts/n_comps/_next in one block guarded by non-membership, with the "
-              "pre-increment index; union makes both elements members, links two distinct roots returned by find, updates the size of the new root "
-              "in the same block, and decrements n_comps exactly on the paths that write a root link",
-    "C20-U2": "query methods write no field and call no mutator; find writes _par only inside the loop guarded by `p != parent(p)`, at index p, with a value "
-              "read from _par, and climbs to the parent; no code outside the class touches the private tables",
+    "C20-U1": "every registration of an element (in add, union, __init__) appends to _elts/_par/_siz and stores _indx once each, with the index the element "
+              "really gets, under a still-valid non-membership test, and advances _next/n_elts/n_comps by one; __init__ starts from empty tables and registers "
+              "its elements one by one; union makes both elements members, links two distinct roots returned by find, updates the size of the new root, "
+              "and decrements n_comps exactly on the paths that write a root link",
+    "C20-U2": "query methods write no table and call no mutator (a cache they keep must be reset by add and union); find writes into _par only entries read from "
+              "_par, at a node known to differ from its parent, climbs to a parent at every turn and returns a fixed point of _par; no code outside the "
+              "class touches the private tables",
     "C20-U3": "element collections (self._elts / self._indx and values derived from them) never flow into numpy (np.array, np.vectorize, ...): "
               "tuples become rows, mixed types are coerced",
     "C20-V1": "component / roots / components / component_mapping enumerate every element of self._elts, classify it by self.find(element), "
               "collect the element itself unconditionally; component keeps exactly the elements whose root equals find(x)",
-    "C20-O1": "__getitem__/__setitem__ raise exactly when index < 0 or index >= _next",
-    "C20-Q1": "PriorityQueue.data is written only by heapq.heappush/heappop inside the class and never escapes; push builds PriorityItem(payload, priority) "
-              "in field order; front reads data[0]; PriorityItem.__lt__ compares priority only; empty() is len == 0",
+    "C20-O1": "__getitem__/__setitem__ raise exactly when index < 0 or index >= _next, and access _elts only in range",
+    "C20-Q1": "PriorityQueue.data is a fresh private list written only by heapq.heappush/heappop inside the class and never escapes; push queues "
+              "PriorityItem(payload, priority) on every normally returning path; get / pop return one heappop; front reads data[0]; PriorityItem.__lt__ "
+              "compares priority only; empty() is len == 0",
 }
 
 ASSUMPTIONS = ["heapq keeps the heap invariant of a list only it modifies and compares items with `<` only",
-               "numpy coerces sequences of tuples to 2-D arrays and mixed sequences to a common dtype"]
+               "numpy coerces sequences of tuples to 2-D arrays and mixed sequences to a common dtype",
+               "loops are analysed on their first iteration (zero-or-one unrolling of the symbolic paths)"]
 
-FIELDS_LISTS = ("_elts", "_par", "_siz")
-COUNTERS = ("_next", "n_elts", "n_comps")
 MUTATING = {"append", "extend", "insert", "pop", "remove", "clear", "sort", "reverse", "update", "add", "discard",
             "setdefault", "popitem", "appendleft", "popleft", "fill", "resize", "put", "__setitem__", "__delitem__"}
-UF_MUTATORS = {"__init__", "add", "union", "__setitem__"}
 PRIVATE_UF = {"_par", "_siz", "_indx", "_elts", "_next"}
 
 
@@ -48,448 +57,33 @@ def pos(node):
     return (getattr(node, "lineno", 0), getattr(node, "col_offset", 0))
 
 
+def guarded(ctx, rule, modname, qual, f, *a, **kw):
+    """an internal failure of the analysis is an undecided obligation, never a violation and never a pass"""
+    try:
+        return f(ctx, *a, **kw)
+    except AnalysisError:
+        raise
+    except Exception as e:          # pragma: no cover
+        ctx.undecided(rule, ctx.site(modname, qual), f"the analysis of {qual} failed internally ({type(e).__name__})", traceback.format_exc(limit=3)[-300:])
+        return None
+
+
 def run(ctx):
-    u1_add(ctx)
-    u1_union(ctx)
-    u2_queries(ctx)
+    repo = ctx.repo
+    for q in ("add", "union", "find", "__init__"):
+        repo.func(UF, f"{UFC}.{q}")         # public anchors
+    for q in ("push", "__init__"):
+        repo.func(PQM, f"{PQC}.{q}")
+    guarded(ctx, "C20-U1", UF, UFC + ".add", hg_uf.u1_add)
+    guarded(ctx, "C20-U1", UF, UFC + ".__init__", hg_uf.u1_init)
+    guarded(ctx, "C20-U1", UF, UFC + ".union", hg_uf.u1_union)
+    guarded(ctx, "C20-U2", UF, UFC + ".find", hg_uf.u2_find)
+    guarded(ctx, "C20-U2", UF, UFC, hg_uf.u2_queries)
     routed = u3_numpy(ctx)
-    v1_views(ctx, routed)
-    o1_bounds(ctx)
+    guarded(ctx, "C20-V1", UF, UFC, hg_uf.v1_views, routed)
+    guarded(ctx, "C20-O1", UF, UFC, hg_uf.o1_bounds)
     q1_queue(ctx)
     sweeps(ctx)
-
-
-# ----------------------------------------------------------------- field writes
-def field_writes(fn, recv="self"):
-    """[(field, kind, node, stmt)] kind in assign / aug / store / augstore / del / call:<method>"""
-    out = []
-    for st in au.stmts(fn.body):
-        targets = []
-        if isinstance(st, ast.Assign):
-            for t in st.targets:
-                targets += [(x, "") for x in (t.elts if isinstance(t, (ast.Tuple, ast.List)) else [t])]
-        elif isinstance(st, ast.AnnAssign) and st.value is not None:
-            targets.append((st.target, ""))
-        elif isinstance(st, ast.AugAssign):
-            targets.append((st.target, "aug"))
-        elif isinstance(st, ast.Delete):
-            targets += [(t, "del") for t in st.targets]
-        elif isinstance(st, (ast.For, ast.AsyncFor)):
-            targets += [(x, "") for x in ([st.target] if not isinstance(st.target, (ast.Tuple, ast.List)) else st.target.elts)]
-        for t, k in targets:
-            if au.is_self_attr(t, recv=recv):
-                out.append((t.attr, k or "assign", t, st))
-            elif isinstance(t, ast.Subscript):
-                base = t.value
-                while isinstance(base, ast.Subscript):
-                    base = base.value
-                if au.is_self_attr(base, recv=recv):
-                    out.append((base.attr, (k + "store") if k != "del" else "del", t, st))
-    for c in au.calls(fn):
-        if isinstance(c.func, ast.Attribute) and c.func.attr in MUTATING:
-            base = c.func.value
-            while isinstance(base, ast.Subscript):
-                base = base.value
-            if au.is_self_attr(base, recv=recv):
-                out.append((base.attr, "call:" + c.func.attr, c, au.enclosing_stmt(c)))
-    return out
-
-
-def is_plus_one(st, field):
-    """self.field += 1  |  self.field = self.field + 1"""
-    if isinstance(st, ast.AugAssign) and au.is_self_attr(st.target, field):
-        return isinstance(st.op, ast.Add) and au.const(st.value) == 1
-    if isinstance(st, ast.Assign) and len(st.targets) == 1 and au.is_self_attr(st.targets[0], field):
-        try:
-            p = sym.to_poly(st.value, atom_of=lambda e: "C" if au.is_self_attr(e, field) else None, opaque=False)
-            return p == sym.Poly.atom("C") + 1
-        except sym.NotPoly:
-            return False
-    return False
-
-
-def is_minus_one(st, field):
-    if isinstance(st, ast.AugAssign) and au.is_self_attr(st.target, field):
-        return (isinstance(st.op, ast.Sub) and au.const(st.value) == 1) or (isinstance(st.op, ast.Add) and au.const(st.value) == -1)
-    if isinstance(st, ast.Assign) and len(st.targets) == 1 and au.is_self_attr(st.targets[0], field):
-        try:
-            p = sym.to_poly(st.value, atom_of=lambda e: "C" if au.is_self_attr(e, field) else None, opaque=False)
-            return p == sym.Poly.atom("C") - 1
-        except sym.NotPoly:
-            return False
-    return False
-
-
-def membership(test, pol, elem):
-    """+1 if (test, pol) states `elem in self`, -1 if it states `elem not in self`, 0 otherwise."""
-    test, pol = U.strip_not(test, pol)
-    if isinstance(test, ast.Compare) and len(test.ops) == 1 and isinstance(test.ops[0], (ast.In, ast.NotIn)) \
-            and isinstance(test.left, ast.Name) and test.left.id == elem:
-        c = test.comparators[0]
-        if (isinstance(c, ast.Name) and c.id == "self") or au.is_self_attr(c, "_indx") or au.is_self_attr(c, "_elts"):
-            is_in = isinstance(test.ops[0], ast.In)
-            return 1 if is_in == pol else -1
-    return 0
-
-
-def registration(repo):
-    """(add, function whose body does the book-keeping, its element parameter, helper name or None): `add` may delegate the seven
-    updates to one private helper `self._h(x)` - the helper is then analysed in its place and every call site of the helper must
-    itself be guarded by non-membership."""
-    fn = repo.func(UF, UFC + ".add")
-    ps = au.params(fn, skip_self=True)
-    if len(ps) != 1:
-        return fn, fn, None, None
-    if not field_writes(fn):
-        cls = repo.cls(UF, UFC)
-        methods = {st.name: st for st in cls.body if isinstance(st, ast.FunctionDef)}
-        calls = [c for c in au.calls(fn) if isinstance(c.func, ast.Attribute) and au.is_self_attr(c.func) and c.func.attr in methods
-                 and len(c.args) == 1 and not c.keywords and au.src(c.args[0]) == ps[0] and field_writes(methods[c.func.attr])]
-        if len(calls) == 1:
-            h = methods[calls[0].func.attr]
-            hps = au.params(h, skip_self=True)
-            if len(hps) == 1:
-                return fn, h, hps[0], h.name
-    return fn, fn, ps[0], None
-
-
-def uf_mutators(repo):
-    h = registration(repo)[3]
-    return UF_MUTATORS | ({h} if h else set())
-
-
-# ----------------------------------------------------------------- C20-U1 add
-def u1_add(ctx):
-    repo = ctx.repo
-    add_fn, fn, x, helper = registration(repo)
-    site = ctx.site(UF, fn)
-    if x is None:
-        ctx.fail("C20-U1", ctx.site(UF, add_fn), "add(x) signature not found", "")
-        return
-    ws = field_writes(fn)
-    by_field = {}
-    for f, k, n, st in ws:
-        by_field.setdefault(f, []).append((k, n, st))
-    need = set(FIELDS_LISTS) | {"_indx"} | set(COUNTERS)
-    shape = {"_elts": "call:append", "_par": "call:append", "_siz": "call:append", "_indx": "store"}
-    missing = sorted(f for f in need if len(by_field.get(f, [])) != 1 or
-                     (f in shape and by_field[f][0][0] != shape[f]))
-    extra = sorted(set(by_field) - need)
-    if missing or extra:
-        ctx.fail("C20-U1", site,
-                 "add does not write each of _elts, _indx, _par, _siz, _next, n_elts, n_comps exactly once"
-                 + (f" (missing or repeated: {', '.join(missing)})" if missing else "") + (f" (also writes {', '.join(extra)})" if extra else ""),
-                 "the element list, its index map, the forest and the three counters must advance together: a table left behind makes "
-                 "find / len / n_comps describe different partitions")
-        return
-    stm = {f: by_field[f][0][2] for f in need}
-    blocks = {id(au.enclosing_block(s)[0]) for s in stm.values()}
-    conds = [sorted(au.src(t) + str(p) for t, p in U.dominating_conditions(s)) for s in stm.values()]
-    ctx.check(len(blocks) == 1 and all(c == conds[0] for c in conds), "C20-U1", site,
-              "the seven book-keeping updates of add are not in one block under the same conditions",
-              "a conditional update desynchronises the tables", note="seven updates in one block")
-    if helper is None:
-        facts = [membership(t, p, x) for t, p in U.dominating_conditions(stm["_elts"])]
-        ctx.check(-1 in facts and 1 not in facts, "C20-U1", site,
-                  f"the book-keeping of add is not guarded by `{x} not in self`",
-                  "adding an element twice must be a no-op: otherwise it gets a second index, n_elts / n_comps over-count and the old node is orphaned",
-                  note="add is idempotent (non-membership guard)")
-    else:
-        # the unchecked helper registers unconditionally: each of its call sites must establish non-membership itself, at the call
-        for st_ in repo.cls(UF, UFC).body:
-            if not isinstance(st_, ast.FunctionDef):
-                continue
-            for c in au.calls(st_):
-                if isinstance(c.func, ast.Attribute) and au.is_self_attr(c.func, helper):
-                    a = c.args[0] if len(c.args) == 1 else None
-                    facts = [membership(t, p, a.id) for t, p in U.dominating_conditions(c)] if isinstance(a, ast.Name) else []
-                    ctx.check(-1 in facts and 1 not in facts, "C20-U1", ctx.site(UF, st_, c),
-                              f"{st_.name} calls the unchecked registration helper self.{helper}(...) without testing `element not in self` at the call",
-                              "registering an element that is already present (e.g. the second operand of union(x, x) after the first was registered) gives it a "
-                              "second slot: n_elts / n_comps over-count and the listings show it twice",
-                              note=f"{st_.name}: self.{helper} guarded by non-membership")
-    # values
-    inc_pos = {c: pos(stm[c]) for c in COUNTERS}
-    app_pos = {f: pos(stm[f]) for f in FIELDS_LISTS}
-
-    def index_ok(e, at):
-        def atom(n):
-            for c in ("_next", "n_elts"):
-                if au.is_self_attr(n, c):
-                    return sym.Poly.atom("N") + (1 if at > inc_pos[c] else 0)
-            if isinstance(n, ast.Call) and au.call_tail(n) == "len" and len(n.args) == 1:
-                a = n.args[0]
-                for f in FIELDS_LISTS:
-                    if au.is_self_attr(a, f):
-                        return sym.Poly.atom("N") + (1 if at > app_pos[f] else 0)
-                if isinstance(a, ast.Name) and a.id == "self":
-                    return sym.Poly.atom("N") + (1 if at > inc_pos["n_elts"] else 0)
-            return None
-        try:
-            return sym.to_poly(e, atom_of=atom, opaque=False) == sym.Poly.atom("N")
-        except sym.NotPoly:
-            return False
-    e_app = by_field["_elts"][0][1]
-    p_app = by_field["_par"][0][1]
-    s_app = by_field["_siz"][0][1]
-    i_st = by_field["_indx"][0][1]
-    i_val = stm["_indx"].value if isinstance(stm["_indx"], ast.Assign) else None
-    vals_ok = len(e_app.args) == 1 and au.src(e_app.args[0]) == x \
-        and au.src(i_st.slice) == x and i_val is not None and index_ok(i_val, pos(stm["_indx"])) \
-        and len(p_app.args) == 1 and index_ok(p_app.args[0], pos(stm["_par"])) \
-        and len(s_app.args) == 1 and au.const(s_app.args[0]) == 1
-    ctx.check(vals_ok, "C20-U1", site,
-              f"add does not record (_elts: {x}, _indx[{x}]: new index, _par: new index (own root), _siz: 1) with the index the element really gets "
-              f"(found `{au.src(stm['_elts'])}`, `{au.src(stm['_indx'])}`, `{au.src(stm['_par'])}`, `{au.src(stm['_siz'])}`)",
-              "a new element must be its own root of size 1 and _indx must point at its slot in _elts/_par/_siz",
-              note="new element is its own root of size 1 at the fresh index")
-    ctx.check(all(is_plus_one(stm[c], c) for c in COUNTERS), "C20-U1", site,
-              "add does not advance each of _next, n_elts, n_comps by exactly one",
-              "one new element is one new singleton component", note="three counters += 1")
-    # __contains__ is the index map
-    cfn = repo.func(UF, UFC + ".__contains__")
-    cps = au.params(cfn, skip_self=True)
-    rets = [s for s in au.stmts(cfn.body) if isinstance(s, ast.Return)]
-    ok = len(rets) == 1 and len(cps) == 1 and rets[0].value is not None and membership(rets[0].value, True, cps[0]) == 1 \
-        and not au.is_self_attr(rets[0].value.comparators[0] if isinstance(rets[0].value, ast.Compare) else None, "_elts") \
-        and not (isinstance(rets[0].value, ast.Compare) and isinstance(rets[0].value.comparators[0], ast.Name))
-    ctx.check(ok, "C20-U1", ctx.site(UF, cfn), "__contains__ is not `x in self._indx`",
-              "membership drives the idempotence of add and the auto-insertion of union")
-    # __init__ starts from the empty state and adds every initial element
-    ifn = repo.func(UF, UFC + ".__init__")
-    init = {}
-    for st in ifn.body:
-        if isinstance(st, ast.Assign) and len(st.targets) == 1 and au.is_self_attr(st.targets[0]):
-            init[st.targets[0].attr] = st.value
-    ok = all(au.const(init.get(c), None) == 0 for c in COUNTERS) and \
-        all(isinstance(init.get(f), ast.List) and not init[f].elts or au.src(init.get(f)) == "list()" for f in FIELDS_LISTS) and \
-        ((isinstance(init.get("_indx"), ast.Dict) and not init["_indx"].keys) or au.src(init.get("_indx")) == "dict()")
-    ctx.check(ok, "C20-U1", ctx.site(UF, ifn), "__init__ does not start from empty tables and zero counters",
-              "the lock-step invariant must hold initially")
-    ips = au.params(ifn, skip_self=True)
-    adds = [c for c in au.calls(ifn) if isinstance(c.func, ast.Attribute) and au.is_self_attr(c.func, "add")]
-    ok = False
-    if len(adds) == 1 and ips:
-        loops = [a for a in au.ancestors(adds[0]) if isinstance(a, ast.For)]
-        ok = bool(loops) and isinstance(loops[0].target, ast.Name) and au.src(adds[0].args[0]) == loops[0].target.id \
-            and au.src(loops[0].iter) == ips[0] and not au.guards(adds[0], stop=loops[0]) and any(loops[0] is s for s in ifn.body)
-    ctx.check(ok, "C20-U1", ctx.site(UF, ifn), "__init__ does not add every initial element through self.add", "")
-
-
-# ----------------------------------------------------------------- C20-U1 union
-def u1_union(ctx):
-    repo = ctx.repo
-    fn = repo.func(UF, UFC + ".union")
-    site = ctx.site(UF, fn)
-    ps = au.params(fn, skip_self=True)
-    if len(ps) != 2:
-        ctx.fail("C20-U1", site, "union(x, y) signature not found", "")
-        return
-    roots = {}          # local name -> parameter whose root it is
-    find_stmts = []
-    for st in au.stmts(fn.body):
-        if isinstance(st, ast.Assign) and len(st.targets) == 1 and isinstance(st.targets[0], ast.Name) \
-                and isinstance(st.value, ast.Call) and isinstance(st.value.func, ast.Attribute) and au.is_self_attr(st.value.func, "find") \
-                and len(st.value.args) == 1 and isinstance(st.value.args[0], ast.Name) and st.value.args[0].id in ps:
-            if len(U.bindings_of(fn, st.targets[0].id)) == 1:
-                roots[st.targets[0].id] = st.value.args[0].id
-                find_stmts.append(st)
-    links = [(t, st) for f, k, t, st in field_writes(fn) if f == "_par"]
-    good_links = []
-    for t, st in links:
-        ok = isinstance(st, ast.Assign) and isinstance(t, ast.Subscript) and au.is_self_attr(t.value, "_par") \
-            and isinstance(t.slice, ast.Name) and isinstance(st.value, ast.Name) \
-            and t.slice.id in roots and st.value.id in roots and roots[t.slice.id] != roots[st.value.id]
-        ctx.check(ok, "C20-U1", ctx.site(UF, fn, st),
-                  f"union writes `{au.src(st)}`, which is not a link from the root of one argument to the root of the other (roots come from self.find)",
-                  "linking anything but two roots detaches part of a component or creates a cycle",
-                  note="link between the two find() roots")
-        if ok:
-            good_links.append((t.slice.id, st.value.id, st))
-    if not links:
-        ctx.fail("C20-U1", site, "union never writes a root link into _par", "two components are never merged")
-        return
-    # distinct roots
-    for a, bn, st in good_links:
-        facts = U.dominating_conditions(st)
-        ok = False
-        for t, p in facts:
-            t, p = U.strip_not(t, p)
-            if isinstance(t, ast.Compare) and len(t.ops) == 1 and isinstance(t.ops[0], (ast.Eq, ast.NotEq)) \
-                    and {au.src(t.left), au.src(t.comparators[0])} == {a, bn}:
-                if isinstance(t.ops[0], ast.NotEq) == p:
-                    ok = True
-        ctx.check(ok, "C20-U1", ctx.site(UF, fn, st),
-                  f"the link `{au.src(st)}` is not dominated by `{a} != {bn}`",
-                  "a self-union (or a union inside one component) must change nothing: otherwise the root becomes its own child's size twice and n_comps is decremented",
-                  note="link only between distinct roots")
-    # size of the new root, same block
-    siz_used = any("_siz" in {n.attr for n in au.walk(s.test) if isinstance(n, ast.Attribute)} for s in au.stmts(fn.body)
-                   if isinstance(s, (ast.If, ast.While)))
-    if siz_used:
-        for a, bn, st in good_links:
-            blk, _ = au.enclosing_block(st)
-            ok = False
-            for s in blk or []:
-                tgt = val = None
-                if isinstance(s, ast.AugAssign) and isinstance(s.op, ast.Add):
-                    tgt, val = s.target, s.value
-                    okv = au.src(val) == f"self._siz[{a}]"
-                elif isinstance(s, ast.Assign) and len(s.targets) == 1:
-                    tgt = s.targets[0]
-                    try:
-                        pol = sym.to_poly(s.value, atom_of=lambda e: au.src(e) if isinstance(e, ast.Subscript) else None, opaque=False)
-                        okv = pol == sym.Poly.atom(f"self._siz[{a}]") + sym.Poly.atom(f"self._siz[{bn}]")
-                    except sym.NotPoly:
-                        okv = False
-                else:
-                    continue
-                if au.src(tgt) == f"self._siz[{bn}]" and okv:
-                    ok = True
-            ctx.check(ok, "C20-U1", ctx.site(UF, fn, st),
-                      f"`{au.src(st)}` is not accompanied in its block by `self._siz[{bn}] += self._siz[{a}]`",
-                      "sizes are compared to choose the new root; a size that is not updated with the link is wrong for the next union",
-                      note="size of the new root updated with the link")
-    # n_comps on exactly the linking paths
-    try:
-        ps_all = U.paths(fn.body)
-    except order.Unsupported as ex:
-        raise AnalysisError(f"C20-U1: union too branchy ({ex})")
-    bad = []
-    link_stmts = {id(st) for _, st in links}
-    for p in ps_all:
-        nl = sum(1 for s in p.stmts if id(s) in link_stmts)
-        nd = sum(1 for s in p.stmts if is_minus_one(s, "n_comps"))
-        other = sum(1 for s in p.stmts if not isinstance(s, U.LOOPS) and not is_minus_one(s, "n_comps") and
-                    any(au.is_self_attr(t, "n_comps") for t in au.assign_targets(s)))
-        if nl != nd or nl > 1 or other:
-            bad.append((nl, nd))
-    ctx.check(not bad, "C20-U1", site,
-              "n_comps is not decremented by one on exactly the paths of union that write a root link",
-              f"(links, decrements) on the offending paths: {sorted(set(bad))}; the component count must drop iff two components are merged",
-              note=f"{len(ps_all)} paths: decrement iff link")
-    # both arguments become members before find
-    added = set()
-    adders = {"add"} | ({registration(repo)[3]} - {None})
-    first_find = min((pos(s) for s in find_stmts), default=None)
-    for c in au.calls(fn):
-        if isinstance(c.func, ast.Attribute) and au.is_self_attr(c.func) and c.func.attr in adders and len(c.args) == 1 and isinstance(c.args[0], ast.Name):
-            a = c.args[0].id
-            gs = au.guards(c)
-            loops = [l for l in au.ancestors(c) if isinstance(l, ast.For)]
-            elems = {a}
-            if loops and isinstance(loops[0].target, ast.Name) and loops[0].target.id == a and isinstance(loops[0].iter, (ast.List, ast.Tuple)):
-                elems = {au.src(e) for e in loops[0].iter.elts}
-            if all(membership(t, p, a) == -1 for t, p in gs) and (first_find is None or pos(c) < first_find):
-                added |= elems
-    ctx.check(set(ps) <= added and len(find_stmts) >= 2, "C20-U1", site,
-              f"union does not make both arguments members (self.add) before looking up their roots (added: {sorted(added)})",
-              "union of an absent element must insert it (documented), otherwise find raises ValueError",
-              note="both arguments added before find")
-
-
-# ----------------------------------------------------------------- C20-U2
-def u2_queries(ctx):
-    repo = ctx.repo
-    cls = repo.cls(UF, UFC)
-    mutators = uf_mutators(repo)
-    n = 0
-    for st in cls.body:
-        if not isinstance(st, ast.FunctionDef) or st.name in mutators:
-            continue
-        site = ctx.site(UF, st)
-        ws = field_writes(st)
-        mut_calls = [c for c in au.calls(st) if isinstance(c.func, ast.Attribute) and au.is_self_attr(c.func)
-                     and c.func.attr in (mutators - {"__init__"})]
-        self_store = [t for s in au.stmts(st.body) for t in au.assign_targets(s)
-                      if isinstance(t, ast.Subscript) and isinstance(t.value, ast.Name) and t.value.id == "self"]
-        n += 1
-        if st.name == "find":
-            u2_find(ctx, st, ws, mut_calls, self_store)
-            continue
-        what = sorted({f"self.{f} ({k})" for f, k, _, _ in ws} | {f"self.{c.func.attr}(...)" for c in mut_calls}
-                      | {"self[...] = ..." for _ in self_store})
-        ctx.check(not what, "C20-U2", site, f"query method {st.name} writes {', '.join(what)}",
-                  "queries never change the partition (nor the element tables)", note=f"{st.name} writes no field")
-    ctx.require_count("C20-U2 query methods of UnionFind", n, 9)
-
-
-def u2_find(ctx, fn, ws, mut_calls, self_store):
-    site = ctx.site(UF, fn)
-    b = sym.Bindings(fn)
-    other = sorted({f"self.{f} ({k})" for f, k, _, _ in ws if not (f == "_par" and k == "store")}
-                   | {f"self.{c.func.attr}(...)" for c in mut_calls} | {"self[...] = ..." for _ in self_store})
-    ctx.check(not other, "C20-U2", site, f"find writes {', '.join(other)}",
-              "find may only compress paths inside _par", note="find writes _par only")
-
-    def parent_read(e, depth=0):
-        """expression denotes an entry of _par (an ancestor): self._par[...] or a name only ever bound to such reads"""
-        if isinstance(e, ast.Subscript) and au.is_self_attr(e.value, "_par") and isinstance(e.ctx, ast.Load):
-            return True
-        if isinstance(e, ast.Name) and depth < 4:
-            bs = [v for s, v, i in U.bindings_of(fn, e.id)]
-            return bool(bs) and all(not isinstance(v, ast.AugAssign) and (parent_read(v, depth + 1) or
-                                                                       (isinstance(v, ast.Subscript) and au.is_self_attr(v.value, "_indx")))
-                                    for v in bs) and any(parent_read(v, depth + 1) for v in bs)
-        return False
-
-    stores = [(t, st) for f, k, t, st in ws if f == "_par" and k == "store"]
-    loops_seen = []
-    for t, st in stores:
-        wl = [a for a in au.ancestors(st) if isinstance(a, ast.While)]
-        ok = False
-        detail = "store is not inside a while loop"
-        if wl and isinstance(t.slice, ast.Name) and isinstance(st, ast.Assign):
-            w = wl[0]
-            p = t.slice.id
-            test, pol = U.strip_not(w.test, True)
-            guard_ok = False
-            if isinstance(test, ast.Compare) and len(test.ops) == 1 and isinstance(test.ops[0], (ast.NotEq, ast.Eq)) \
-                    and (isinstance(test.ops[0], ast.NotEq) == pol):
-                sides = [test.left, test.comparators[0]]
-                for i in (0, 1):
-                    me, oth = sides[i], sides[1 - i]
-                    if isinstance(me, ast.Name) and me.id == p:
-                        if au.src(oth) == f"self._par[{p}]":
-                            guard_ok = True
-                        elif isinstance(oth, ast.Name) and oth.id != p and parent_read(oth) \
-                                and U.bindings_of(fn, p, within=w) and not U.bindings_of(fn, oth.id, within=w):
-                            guard_ok = True         # `while p != root` with p climbing and root fixed
-            # p must not be re-bound between the loop test and the store
-            rebind = [s for s, v, i in U.bindings_of(fn, p, within=w) if pos(s) < pos(st)]
-            val_ok = parent_read(st.value)
-            ok = guard_ok and val_ok and not rebind and not [g for g in au.guards(st, stop=w)]
-            detail = f"guard `{au.src(w.test)}` {'ok' if guard_ok else 'is not `p != parent(p)`'}, value `{au.src(st.value)}` " \
-                     f"{'is an ancestor read from _par' if val_ok else 'is not read from _par'}"
-            loops_seen.append((w, p))
-        ctx.check(ok, "C20-U2", ctx.site(UF, fn, st),
-                  f"path compression `{au.src(st)}` is not `_par[p] = <entry of _par>` inside the loop guarded by `p != _par[p]`",
-                  "a root must never be re-parented by a query and a node may only be re-attached to one of its ancestors; " + detail,
-                  note="compression re-attaches a non-root to an ancestor")
-    # the climb: inside the find loop p becomes its parent, and the loop variable is returned
-    whiles = [s for s in au.stmts(fn.body) if isinstance(s, ast.While)]
-    rets = [s for s in au.stmts(fn.body) if isinstance(s, ast.Return)]
-    ok = False
-    if whiles and len(rets) == 1 and isinstance(rets[0].value, ast.Name):
-        r = rets[0].value.id
-        for w in whiles:
-            test, pol = U.strip_not(w.test, True)
-            if not (pol and au.src(test) in (f"{r} != self._par[{r}]", f"self._par[{r}] != {r}")):
-                continue
-            climbs = [v for s, v, i in U.bindings_of(fn, r, within=w)]
-            outside = [v for s, v, i in U.bindings_of(fn, r) if not any(s is x for x in au.stmts(w.body))]
-            if bool(climbs) and all(parent_read(v) for v in climbs) and pos(rets[0]) > pos(w) \
-                    and any(rets[0] is s for s in fn.body) and any(w is s for s in fn.body) \
-                    and all(isinstance(v, ast.Subscript) and au.is_self_attr(v.value, "_indx") for v in outside):
-                ok = True
-    recursive = [c for c in au.calls(fn) if isinstance(c.func, ast.Attribute) and au.is_self_attr(c.func, "find")]
-    if not whiles and recursive:
-        ctx.declare_unsupported("C20-U2: recursive UnionFind.find - the climb to the fixed point of _par is not decided")
-        return
-    ctx.check(ok, "C20-U2", site,
-              "find is not `p = _indx[x]; while p != _par[p]: ... p = <parent of p>; return p`",
-              "find must return the root: the loop may only stop at a fixed point of _par and must climb to a parent at every turn",
-              note="find climbs to the fixed point of _par")
 
 
 # ----------------------------------------------------------------- C20-U3
@@ -588,145 +182,6 @@ def u3_numpy(ctx):
     return routed
 
 
-# ----------------------------------------------------------------- C20-V1
-def v1_views(ctx, routed):
-    """the four partition views (skipped for a method that C20-U3 already reports: its numpy form is not a per-element loop)."""
-    repo = ctx.repo
-    n = 0
-
-    def is_elts(e):
-        return au.is_self_attr(e, "_elts") or au.is_self_attr(e, "_indx") or \
-            (isinstance(e, ast.Call) and not e.args and isinstance(e.func, ast.Attribute) and e.func.attr == "keys"
-             and au.is_self_attr(e.func.value, "_indx"))
-
-    def find_of(e, var):
-        return isinstance(e, ast.Call) and isinstance(e.func, ast.Attribute) and au.is_self_attr(e.func, "find") \
-            and len(e.args) == 1 and isinstance(e.args[0], ast.Name) and e.args[0].id == var
-
-    for name in ("component", "roots", "components", "component_mapping"):
-        fn = repo.func(UF, f"{UFC}.{name}")
-        if name in routed:
-            continue
-        site = ctx.site(UF, fn)
-        b = sym.Bindings(fn)
-        n += 1
-        scopes = []     # (variable, [nodes in which it is live], owner, generator or None)
-        for x in au.walk(fn):
-            if isinstance(x, ast.For) and is_elts(x.iter) and isinstance(x.target, ast.Name):
-                scopes.append((x.target.id, list(x.body), x, None))
-            elif isinstance(x, (ast.ListComp, ast.SetComp, ast.GeneratorExp, ast.DictComp)):
-                for g in x.generators:
-                    if is_elts(g.iter) and isinstance(g.target, ast.Name):
-                        live = ([x.key, x.value] if isinstance(x, ast.DictComp) else [x.elt]) + list(g.ifs)
-                        scopes.append((g.target.id, live, x, g))
-        classified = [(v, live, o, g) for v, live, o, g in scopes if any(find_of(c, v) for l in live for c in au.calls(l))]
-        ok = bool(classified)
-        ctx.check(ok, "C20-V1", site, f"{name} does not visit every element of self._elts and classify it with self.find(element)",
-                  "the view must describe the same partition as find: every element belongs to exactly one reported component",
-                  note=f"{name}: loop over self._elts classified by find")
-        if not ok:
-            continue
-        var, live, owner, gen = classified[0]
-        if name == "component":
-            ps = au.params(fn, skip_self=True)
-            cmps = [c for l in live for c in au.walk(l) if isinstance(c, ast.Compare) and len(c.ops) == 1
-                    and (find_of(c.left, var) or find_of(c.comparators[0], var))]
-            okc = False
-            if len(cmps) == 1 and ps:
-                c = cmps[0]
-                other = c.comparators[0] if find_of(c.left, var) else c.left
-                o = b.resolve(other, at=owner, keep=(ps[0],))
-                positive = (gen is not None and any(c is t for t in gen.ifs) and au.src(owner.elt) == var) or \
-                           (gen is None and any(isinstance(s_, ast.If) and s_.test is c and not s_.orelse and
-                                                any(au.call_tail(k) in ("add", "append") and au.src(k.args[0]) == var for k in au.calls(s_) if k.args)
-                                                for s_ in owner.body))
-                okc = isinstance(c.ops[0], ast.Eq) and au.src(o) == f"self.find({ps[0]})" and positive
-            ctx.check(okc, "C20-V1", site, f"component({ps[0] if ps else 'x'}) does not keep exactly the elements e with self.find(e) == self.find({ps[0] if ps else 'x'})",
-                      "the component of x is the set of elements sharing x's root", note="component filters on find(e) == find(x)")
-        if name in ("components", "component_mapping") and isinstance(owner, ast.For):
-            adds = [k for k in au.calls(owner) if au.call_tail(k) in ("add", "append") and len(k.args) == 1]
-            okc = len(adds) == 1 and au.src(adds[0].args[0]) == var and not au.guards(adds[0], stop=owner)
-            if okc:
-                recv = adds[0].func.value
-                recv = b.resolve(recv, at=adds[0], keep=(var,)) if not isinstance(recv, ast.Call) else recv
-                keyed = [c for c in au.walk(recv) if find_of(c, var)]
-                idx_names = au.names(recv)
-                okc = bool(keyed) or any(find_of(c, var) for nme in idx_names for s_, v_, i_ in U.bindings_of(fn, nme, within=owner)
-                                         for c in au.walk(v_))
-            ctx.check(okc, "C20-V1", ctx.site(UF, fn, owner),
-                      f"{name} does not put every element, unconditionally, into the group selected by self.find(element)",
-                      "an element that is skipped or filed under another root makes the listing disagree with connected()",
-                      note=f"{name}: element filed under find(element)")
-        if name == "components":
-            # root -> position table built from enumerate(roots): key must be the root, value the position
-            for x in au.walk(fn):
-                elt = None
-                if isinstance(x, ast.Call) and au.call_tail(x) == "dict" and len(x.args) == 1 and isinstance(x.args[0], (ast.GeneratorExp, ast.ListComp)) \
-                        and isinstance(x.args[0].elt, ast.Tuple) and len(x.args[0].elt.elts) == 2:
-                    g, (kx, vx) = x.args[0].generators[0], x.args[0].elt.elts
-                elif isinstance(x, ast.DictComp):
-                    g, kx, vx = x.generators[0], x.key, x.value
-                else:
-                    continue
-                if isinstance(g.iter, ast.Call) and au.call_tail(g.iter) == "enumerate" and isinstance(g.target, ast.Tuple) and len(g.target.elts) == 2:
-                    i_, r_ = (au.src(t) for t in g.target.elts)
-                    ctx.check(au.src(kx) == r_ and au.src(vx) == i_, "C20-V1", ctx.site(UF, fn, x),
-                              "the root -> slot table of components maps positions to roots instead of roots to positions",
-                              "elements are filed under table[find(e)]", note="root -> slot table orientation")
-        if name == "component_mapping":
-            for x in au.walk(fn):
-                if isinstance(x, ast.DictComp) and len(x.generators) == 1 and isinstance(x.generators[0].target, ast.Name) \
-                        and isinstance(x.generators[0].iter, ast.Name):
-                    g = x.generators[0]
-                    ctx.check(au.src(x.key) == g.target.id and au.src(x.value) == g.iter.id and not g.ifs, "C20-V1", ctx.site(UF, fn, x),
-                              f"component_mapping builds `{au.src(x)}`: not every member of a component mapped to that component",
-                              "elt -> component containing elt", note="every member mapped to its own component")
-
-
-# ----------------------------------------------------------------- C20-O1
-def o1_bounds(ctx):
-    repo = ctx.repo
-    n = 0
-    for name in ("__getitem__", "__setitem__"):
-        fn = repo.func(UF, f"{UFC}.{name}")
-        site = ctx.site(UF, fn)
-        ps = au.params(fn, skip_self=True)
-        idx = ps[0] if ps else None
-        guards_ = [st for st in fn.body if isinstance(st, ast.If) and U._always_leaves(st.body) and
-                   any(isinstance(x, ast.Raise) for x in au.stmts(st.body)) and not st.orelse]
-        if len(guards_) != 1 or idx is None:
-            n += 1
-            ctx.fail("C20-O1", site, f"bounds check (`if <out of range>: raise IndexError`) not found in {name}",
-                     "an invalid index must raise IndexError (negative indices would silently address the list from its end)")
-            continue
-        g = guards_[0]
-        forms = {idx: "index", "self._next": "_next", "self.n_elts": "_next", "len(self._elts)": "_next", "len(self)": "_next",
-                 "len(self._par)": "_next"}
-
-        def s(node, forms=forms):
-            t = au.src(node)
-            if t in forms:
-                return forms[t]
-            if isinstance(node, ast.BinOp):
-                raise order.Unsupported(f"arithmetic `{t}` in the bounds test")
-            return t
-        n += 1
-        try:
-            wit, ne = order.compare(g.test, "index < 0 or index >= _next", s)
-            syms = order.Pred(s).collect(g.test).symbols
-            ctx.check(wit is None and syms <= {"index", "_next"}, "C20-O1", ctx.site(UF, fn, g),
-                      f"{name} raises under `{au.src(g.test)}`, not under `index < 0 or index >= _next`",
-                      f"differs for {wit}" + (f"; operands {sorted(syms)}" if not syms <= {'index', '_next'} else ""),
-                      note=f"{name} bounds, {ne} orderings")
-        except order.Unsupported as ex:
-            ctx.fail("C20-O1", ctx.site(UF, fn, g), f"bounds test of {name} `{au.src(g.test)}` is not a comparison of the index with 0 and _next", str(ex))
-        # the access follows the check and addresses _elts[index]
-        acc = [x for x in au.walk(fn) if isinstance(x, ast.Subscript) and au.is_self_attr(x.value, "_elts")]
-        ok = len(acc) == 1 and au.src(acc[0].slice) == idx and pos(au.enclosing_stmt(acc[0])) > pos(g) \
-            and isinstance(acc[0].ctx, ast.Store if name == "__setitem__" else ast.Load)
-        ctx.check(ok, "C20-O1", site, f"{name} does not access self._elts[{idx}] after the bounds check", "")
-    ctx.require_count("C20-O1 bounds checks", n, 2)
-
 
 # ----------------------------------------------------------------- C20-Q1
 HEAP_WRITERS = {"heappush", "heappop", "heappushpop", "heapreplace", "heapify"}
@@ -800,7 +255,6 @@ def q1_queue(ctx, rule="C20-Q1", with_empty=True):
     repo = ctx.repo
     mod = repo.module(PQM)
     cls = repo.cls(PQM, PQC)
-    item = repo.cls(PQM, "PriorityItem")
     heap_mods, heap_names = U.module_aliases(mod.tree, "heapq")
     # fixture: the who-may-write classifier must fire on writes and stay silent on reads
     ft = ast.parse(Q1_FIXTURE)
@@ -809,137 +263,27 @@ def q1_queue(ctx, rule="C20-Q1", with_empty=True):
                 if isinstance(n, ast.Attribute) and n.attr == "data"]
     if sum(v is not None for v in verdicts) != 4 or sum(v is None for v in verdicts) != 3:
         raise AnalysisError(f"{rule} self-check: who-may-write classifier gave {verdicts} on the fixture")
-
+    # who may write / who may see the list, in every method of the class (the methods analysed path by path below are also covered here,
+    # so that a method added later cannot modify or leak the list unnoticed)
     n_uses = 0
+    analysed = {"__init__", "push", "get", "pop", "front", "empty"}
     for st in cls.body:
         if not isinstance(st, ast.FunctionDef):
             continue
         for n in au.walk(st):
             if isinstance(n, ast.Attribute) and n.attr == "data" and au.is_self_attr(n):
                 n_uses += 1
-                v = classify_data_use(n, heap_mods, heap_names, True, in_init=st.name == "__init__")
+                if st.name in analysed:
+                    continue
+                v = classify_data_use(n, heap_mods, heap_names, True, in_init=False)
                 ctx.check(v is None, rule, ctx.site(PQM, st, n), f"{st.name}: self.data {v}",
                           "the list is a heap only as long as nothing but heapq.heappush / heappop modifies it; any other writer (or an "
                           "escaped reference) breaks `front`/`pop` = minimum priority", note=f"{st.name}: heap-safe use of self.data")
     if n_uses == 0:
-        ctx.fail(rule, ctx.site(PQM, PQC), "PriorityQueue no longer keeps its items in self.data",
-                 "the heap list and its single-writer discipline cannot be established")
+        ctx.undecided(rule, ctx.site(PQM, PQC), "PriorityQueue no longer keeps its items in self.data",
+                      "the heap list and its single-writer discipline cannot be established")
         return
-    init = repo.func(PQM, PQC + ".__init__")
-    ctx.check(any(isinstance(s, ast.Assign) and au.is_self_attr(s.targets[0], "data") for s in init.body), rule,
-              ctx.site(PQM, init), "__init__ does not create self.data", "a fresh queue must be empty")
-
-    fields = [s.target.id for s in item.body if isinstance(s, ast.AnnAssign) and isinstance(s.target, ast.Name)]
-    payload = [f for f in fields if f != "priority"]
-    # push
-    fn = repo.func(PQM, PQC + ".push")
-    site = ctx.site(PQM, fn)
-    b = sym.Bindings(fn)
-    ps = au.params(fn, skip_self=True)
-    hp = [c for c in au.calls(fn) if (au.chain(c.func) or [None])[-1] == "heappush"]
-    ok = False
-    detail = ""
-    if len(hp) == 1 and len(hp[0].args) == 2 and len(ps) == 2 and "priority" in fields and len(payload) == 1:
-        it = b.resolve(hp[0].args[1], at=hp[0], keep=tuple(ps))
-        if isinstance(it, ast.Call) and au.call_tail(it) == "PriorityItem":
-            args = {}
-            for i, a in enumerate(it.args):
-                if i < len(fields):
-                    args[fields[i]] = a
-            for kw in it.keywords:
-                args[kw.arg] = kw.value
-            ok = au.src(args.get(payload[0])) == ps[0] and au.src(args.get("priority")) == ps[1] \
-                and not au.guards(hp[0]) and len(U.paths(fn.body)) == 1
-            detail = f"item built as {au.src(it)} with fields {fields}"
-    ctx.check(ok, rule, site, f"push({', '.join(ps)}) does not heappush PriorityItem({payload[0] if payload else 'x'}={ps[0] if ps else '?'}, "
-              f"priority={ps[1] if len(ps) > 1 else '?'}) unconditionally",
-              "every pushed element must be queued exactly once under its own priority; " + detail, note="push builds (payload, priority) in field order")
-    # get / pop
-    methods = {s.name: s for s in cls.body if isinstance(s, ast.FunctionDef)}
-
-    def pops_min(name, depth=0):
-        f = methods.get(name)
-        if f is None or depth > 3:
-            return False
-        rets = [s for s in au.stmts(f.body) if isinstance(s, ast.Return)]
-        if len(rets) != 1 or len(U.paths(f.body)) != 1 or not isinstance(rets[0].value, ast.Call):
-            return False
-        c = rets[0].value
-        ch = au.chain(c.func) or []
-        if ((len(ch) == 2 and ch[0] in heap_mods) or (len(ch) == 1 and ch[0] in heap_names)) and ch[-1] == "heappop" \
-                and len(c.args) == 1 and au.is_self_attr(c.args[0], "data"):
-            return len([x for x in au.calls(f)]) == 1
-        if isinstance(c.func, ast.Attribute) and au.is_self_attr(c.func) and not c.args and c.func.attr != name:
-            return len([x for x in au.calls(f)]) == 1 and pops_min(c.func.attr, depth + 1)
-        return False
-    for name in ("get", "pop"):
-        f = repo.func(PQM, f"{PQC}.{name}")
-        ctx.check(pops_min(name), rule, ctx.site(PQM, f), f"{name}() does not return heapq.heappop(self.data) (exactly one pop)",
-                  "each call must hand out one pending item of minimum priority, each pushed item exactly once", note=f"{name} pops the heap once")
-    # front
-    f = repo.func(PQM, PQC + ".front")
-    rets = [s for s in au.stmts(f.body) if isinstance(s, ast.Return)]
-    ok = len(rets) == 1 and isinstance(rets[0].value, ast.Subscript) and au.is_self_attr(rets[0].value.value, "data") \
-        and au.const(rets[0].value.slice) == 0 and not field_writes(f) and len(au.calls(f)) == 0
-    ctx.check(ok, rule, ctx.site(PQM, f), "front does not return self.data[0] without side effect",
-              "the minimum of a heap list is its first entry", note="front is data[0]")
-    if with_empty:
-        # empty
-        f = repo.func(PQM, PQC + ".empty")
-        rets = [s for s in au.stmts(f.body) if isinstance(s, ast.Return)]
-        ok, wit = False, None
-        if len(rets) == 1 and rets[0].value is not None and not field_writes(f):
-            e = rets[0].value
-            if isinstance(e, ast.UnaryOp) and isinstance(e.op, ast.Not) and au.is_self_attr(e.operand, "data"):
-                ok = True
-            else:
-                def s(node):
-                    if au.src(node) in ("len(self.data)", "self.data.__len__()"):
-                        return "n"
-                    raise order.Unsupported(au.src(node))
-                try:
-                    r = U.relate(e, "n == 0", s, env_ok=lambda env: env.get("n", 0) >= 0 and float(env.get("n", 0)).is_integer())
-                    ok = r["code_not_spec"] is None and r["spec_not_code"] is None
-                    wit = r["code_not_spec"] or r["spec_not_code"]
-                except order.Unsupported:
-                    ok = False
-        ctx.check(ok, rule, ctx.site(PQM, f), "empty() is not `len(self.data) == 0`",
-                  f"emptiness must be reported exactly when no item is pending (differs for {wit})", note="empty is len == 0")
-    # ordering of items
-    lt = [s for s in item.body if isinstance(s, ast.FunctionDef) and s.name == "__lt__"]
-    isite = ctx.site(PQM, lt[0] if lt else "PriorityItem")
-    if lt:
-        lps = au.params(lt[0])
-        rets = [s for s in au.stmts(lt[0].body) if isinstance(s, ast.Return)]
-        ok, wit = False, None
-        if len(rets) == 1 and len(lps) == 2 and rets[0].value is not None:
-            forms = {f"{lps[0]}.priority": "a", f"{lps[1]}.priority": "b"}
-
-            def s2(node):
-                t = au.src(node)
-                if t in forms:
-                    return forms[t]
-                raise order.Unsupported(f"`{t}` takes part in the ordering of items")
-            try:
-                r = U.relate(rets[0].value, "a < b", s2, env_ok=lambda env: env.get("a") != env.get("b"), extra_symbols=("a", "b"))
-                ok = r["code_not_spec"] is None and r["spec_not_code"] is None
-                wit = r["code_not_spec"] or r["spec_not_code"]
-            except order.Unsupported as ex:
-                wit = str(ex)
-        ctx.check(ok, rule, isite, "PriorityItem.__lt__ is not `self.priority < other.priority`",
-                  f"heapq orders items with `<` only: it must be the order of the priorities and nothing else ({wit}); payloads need not be comparable",
-                  note="items ordered by priority only")
-        others = [s.name for s in item.body if isinstance(s, ast.FunctionDef) and s.name in ("__gt__", "__le__", "__ge__", "__eq__")]
-        ctx.check(not others, rule, isite, f"PriorityItem also defines {others}", "other rich comparisons must agree with __lt__; none is expected")
-    else:
-        # dataclass(order=True) path: every non-priority field must be excluded from comparison and priority comes first
-        order_kw = any(isinstance(d, ast.Call) and any(kw.arg == "order" and au.const(kw.value) is True for kw in d.keywords)
-                       for d in item.decorator_list)
-        excluded = all(any(isinstance(s, ast.AnnAssign) and s.target.id == f and isinstance(s.value, ast.Call) and
-                           any(kw.arg == "compare" and au.const(kw.value) is False for kw in s.value.keywords) for s in item.body)
-                       for f in payload)
-        ctx.check(order_kw and excluded, rule, isite, "PriorityItem has no __lt__ on priority and is not an order=True dataclass whose payload is compare=False",
-                  "heapq needs `<` on items, decided by the priority alone")
+    guarded(ctx, rule, PQM, PQC, hg_pq.q1_methods, rule, with_empty)
 
 
 # ----------------------------------------------------------------- sweeps (who-may-write over the package)
